@@ -256,6 +256,13 @@ pub fn extnum_shapes() -> Vec<Skeleton> {
             Sec::new(b".symtab", SHT_SYMTAB, symtab.clone()).link(4).info(1).entsize(symsz),
             Sec::new(b".strtab", SHT_STRTAB, strtab.clone()),
             Sec::new(b".dynsym", SHT_DYNSYM, symtab).link(4).info(1).entsize(symsz),
+            // enough sections for the count in shdr[0].sh_size to span NUL bytes of the file header
+            // (a string table read from header 0's range [0, count) then holds terminated strings)
+            Sec::new(b".a", SHT_PROGBITS, vec![1]),
+            Sec::new(b".b", SHT_PROGBITS, vec![2]),
+            Sec::new(b".c", SHT_PROGBITS, vec![3]),
+            Sec::new(b".d", SHT_PROGBITS, vec![4]),
+            Sec::new(b".e", SHT_PROGBITS, vec![5]),
         ];
         s.segs = vec![Seg { p_type: PT_LOAD, flags: 5, vaddr: 0, paddr: 0, align: 16, memsz_extra: 0, target: SegTarget::Section(1) }];
         let mut b = build(&s);
